@@ -38,3 +38,22 @@ Theorem C05_reachable_same_route_sets_same_answers :
     rsearch chk (run b1 ops1) p = rsearch chk (run b2 ops2) p.
 Proof. exact reach_same_routes. Qed.
 Print Assumptions C05_reachable_same_route_sets_same_answers.
+
+(* the statement of the property itself (search half): [live_of b ops] is the list of (template, data) pairs that
+   the history left live - a pair enters by a successful insert and leaves by a successful delete (Print lstep) *)
+From WF Require Import Proofs.RegistryP.
+Print lstep.
+Theorem C05_same_live_templates_same_answers :
+  forall b1 b2 (ops1 ops2 : list op) chk p,
+    (forall x, In x (live_of b1 ops1) <-> In x (live_of b2 ops2)) ->
+    rsearch chk (run b1 ops1) p = rsearch chk (run b2 ops2) p.
+Proof. exact reach_same_live. Qed.
+Print Assumptions C05_same_live_templates_same_answers.
+
+(* ... and store the same routes with the same infos (template, expansion text, depth, length, data) *)
+Theorem C05_same_live_templates_same_stored_routes :
+  forall b1 b2 (ops1 ops2 : list op),
+    (forall x, In x (live_of b1 ops1) <-> In x (live_of b2 ops2)) ->
+    forall r0 i, RM (r_root (run b1 ops1)) r0 i <-> RM (r_root (run b2 ops2)) r0 i.
+Proof. exact reach_same_live_routes. Qed.
+Print Assumptions C05_same_live_templates_same_stored_routes.
